@@ -272,8 +272,18 @@ def spec_recurrenceplot():
         v = rng.choice([r for r in (0.2, 0.4, 0.6) if ("local_recurrence_rate", r) != o._verif])
         o.set_fixed_local_recurrence_rate(v)
         o._verif = ("local_recurrence_rate", v)
+    def ans(o, rng):
+        v = rng.choice([k for k in (2, 3, 4) if ("adaptive_neighborhood_size", k) != o._verif])
+        o.set_adaptive_neighborhood_size(v)
+        o._verif = ("adaptive_neighborhood_size", v)
+
+    def tstd(o, rng):
+        v = rng.choice([t for t in (0.5, 0.75, 1.25) if ("threshold_std", t) != o._verif])
+        o.set_fixed_threshold_std(v)
+        o._verif = ("threshold_std", v)
     mut = {"set_fixed_threshold": st, "set_fixed_recurrence_rate": rr,
-           "set_fixed_local_recurrence_rate": lrr}
+           "set_fixed_local_recurrence_rate": lrr, "set_adaptive_neighborhood_size": ans,
+           "set_fixed_threshold_std": tstd}
     return dict(cls=RecurrencePlot, make=make, twin=twin, mutators=mut,
                 summary=["N", "recurrence_matrix()", "recurrence_rate()", "determinism()",
                          "laminarity()", "max_diaglength()", "white_vertline_dist()"],
@@ -314,7 +324,20 @@ def spec_recurrencenetwork():
     def ew(o, rng):
         new_weights(o, rng)
         o._verif_explicit_w = True
-    mut = {"set_fixed_threshold": st, "set_fixed_recurrence_rate": rr, "set:node_weights": ew}
+    def other(kind, values, setter):
+        def f(o, rng):
+            v = rng.choice([x for x in values if (kind, x) != o._verif])
+            getattr(o, setter)(v)
+            o._verif = (kind, v)
+            o._verif_explicit_w = False
+        return f
+    mut = {"set_fixed_threshold": st, "set_fixed_recurrence_rate": rr, "set:node_weights": ew,
+           "set_adaptive_neighborhood_size": other("adaptive_neighborhood_size", (2, 3, 4),
+                                                   "set_adaptive_neighborhood_size"),
+           "set_fixed_threshold_std": other("threshold_std", (0.5, 0.75, 1.25),
+                                            "set_fixed_threshold_std"),
+           "set_fixed_local_recurrence_rate": other("local_recurrence_rate", (0.2, 0.4, 0.6),
+                                                    "set_fixed_local_recurrence_rate")}
     return dict(cls=RecurrenceNetwork, make=make, twin=twin, mutators=mut,
                 summary=SUMMARY_NET + ["recurrence_matrix()", "recurrence_rate()",
                                        "determinism()", "laminarity()"],
@@ -759,8 +782,22 @@ def spec_crossrecurrenceplot():
         v = rng.choice([r for r in (0.2, 0.35, 0.5, 0.65) if ("recurrence_rate", r) != o._verif])
         o.set_fixed_recurrence_rate(v)
         o._verif = ("recurrence_rate", v)
+    def newy(o, rng):
+        # replace the second trajectory (same length: N, M are fixed at construction), then
+        # re-threshold: the plot must be that of the new pair of series
+        y = np.array([[rng.randrange(0, 9) / 2] for _ in range(len(o._verif_ts[1]))])
+        o.y_embedded = y
+        o._verif_ts = (o._verif_ts[0], y[:, 0].copy())
+        (st if rng.random() < 0.5 else rr)(o, rng)
+
+    def newx(o, rng):
+        x = np.array([[rng.randrange(0, 9) / 2] for _ in range(len(o._verif_ts[0]))])
+        o.x_embedded = x
+        o._verif_ts = (x[:, 0].copy(), o._verif_ts[1])
+        (st if rng.random() < 0.5 else rr)(o, rng)
     return dict(cls=CrossRecurrencePlot, make=make, twin=twin,
-                mutators={"set_fixed_threshold": st, "set_fixed_recurrence_rate": rr},
+                mutators={"set_fixed_threshold": st, "set_fixed_recurrence_rate": rr,
+                          "y_embedded=;rethreshold": newy, "x_embedded=;rethreshold": newx},
                 summary=["N", "M", "recurrence_matrix()", "cross_recurrence_rate()", "balance()"],
                 argsets={})
 
